@@ -28,6 +28,7 @@ def cases(tier):
         if len(links) >= 2:
             yield {"kind": "deforder", "variant": {"links": links}, "tier": tier}
     yield {"kind": "deforder", "variant": {"links": ["bb", "ang3", "a_c", "gt"][:3]}, "tier": tier, "blocks_only": True}
+    yield {"kind": "fromitp", "tier": tier}
     depth = 3 if tier == "quick" else 4
     for first in range(len(HIST_INPUTS)):
         yield {"kind": "history", "first": first, "depth": depth, "tier": tier}
@@ -103,6 +104,43 @@ def check_graph_transforms(variant, spec, rg, stats, tier):
         rg2["edges"] = [rg["edges"][i] for i in order]
         cmp("edge-order", list(order), H.build_resgraph(rg2))
     return viols, ntrans
+
+
+def check_fromitp_transforms(case):
+    """residue graphs with one or two multi-residue from_itp fragments (copies of the two-residue block M) among ordinary
+    residues: the canonical output is the same under every node insertion order and every node-key relabelling"""
+    from .c01_extra import M_ITP
+    viols, evals, keys = [], 0, []
+    ff_text = M_ITP + F.render_block_itp("A", F.BLOCKS["A"]) + F.render_block_itp("B", F.BLOCKS["B"])
+    for seq in (["M"], ["M", "A"], ["A", "M"], ["M", "M"], ["M", "A", "M"], ["A", "M", "M"], ["M", "B", "M", "A"]):
+        residues = []
+        for tok in seq:
+            residues += [("MA", True), ("MB", True)] if tok == "M" else [(tok, False)]
+        n = len(residues)
+        rg = dict(n=n, edges=[[i, i + 1] for i in range(n - 1)], resids=[1 + i for i in range(n)], resnames=[r[0] for r in residues],
+                  node_attrs={str(i): {"from_itp": "M"} for i, r in enumerate(residues) if r[1]})
+        base = run_graph(H.parse_ff([("itp", ff_text)]), H.build_resgraph(rg))
+        if base and base[0] == "EXC":
+            viols.append(dict(assertion="independent-of-insertion-order", tags=["from_itp"], message=f"sequence {seq}: base input raises {base[1]}",
+                              case=dict(kind="fromitp1", seq=seq, transform=["base", []]), detail={}))
+            continue
+        perms = list(itertools.permutations(range(n))) if n <= 5 else \
+            [tuple(range(n))[::-1]] + [tuple(range(n))[r:] + tuple(range(n))[:r] for r in range(1, n)] + \
+            [tuple(range(0, n, 2)) + tuple(range(1, n, 2)), tuple(range(1, n, 2)) + tuple(range(0, n, 2))]
+        for kind in ("insertion-order", "node-keys"):
+            for perm in perms:
+                if list(perm) == list(range(n)):
+                    continue
+                evals += 1
+                g = H.build_resgraph(rg, insertion=list(perm)) if kind == "insertion-order" else H.build_resgraph(rg, key_perm=list(perm))
+                got = run_graph(H.parse_ff([("itp", ff_text)]), g)
+                if got != base and len(viols) < 20:
+                    what = f"exception {got[1]}" if got and got[0] == "EXC" else "output differs"
+                    viols.append(dict(assertion=f"independent-of-{kind}", tags=["from_itp"],
+                                      message=f"sequence {seq} with from_itp fragments: {what} under {kind} {list(perm)}",
+                                      case=dict(kind="fromitp1", seq=seq, transform=[kind, list(perm)]), detail={}))
+                keys.append(json.dumps([seq, kind, list(perm)]))
+    return viols, evals, keys
 
 
 def apply_transform(rg, transform):
@@ -288,6 +326,12 @@ def check_histories(case):
 
 def run_case(case):
     stats = {}
+    if case["kind"] in ("fromitp", "fromitp1"):
+        v, evals, keys = check_fromitp_transforms(case)
+        if case["kind"] == "fromitp1":
+            v = [x for x in v if x["case"]["seq"] == case["seq"] and x["case"]["transform"] == case["transform"]]
+            return dict(evals=1, keys=[], violations=v, stats={})
+        return dict(evals=evals, keys=keys, violations=v, stats={"fromitp_transforms": evals}, sample=dict(kind="fromitp", transforms=evals))
     if case["kind"] == "graph1":
         variant, rg = case["variant"], case["rg"]
         spec = gp_cases.make_spec(variant)
